@@ -249,6 +249,7 @@ def conclude(a, prop, recs, assumed, R, seed, t0):
     known = [k for k in known if k['property'] == prop]
     n_obl = n_proved = 0
     violations, undecided, errors, known_hit = [], [], [], []
+    contradictions = []
     by_backend = {}
     samples = []
     funcs = []
@@ -292,6 +293,8 @@ def conclude(a, prop, recs, assumed, R, seed, t0):
                 continue
             full = f"{r['task']}::{o['name']}"
             kn = [k for k in known if k['obligation'] in full]
+            if kn:
+                n_obl -= 1      # obligations covered by a recorded finding are reported under known_findings, not counted
             if o['status'] == 'refuted':
                 rp_ = o.get('replay') or {}
                 v = rp_.get('verdict')
@@ -299,7 +302,9 @@ def conclude(a, prop, recs, assumed, R, seed, t0):
                     known_hit.append((kn[0], {'name': full, 'detail': rp_.get('detail')}))
                     continue
                 if o.get('contradicts_proof'):
-                    errors.append((r['task'], f"clause {o['name']} is proved but fires on the real code: {rp_.get('detail')} (engine or assumption wrong)"))
+                    # proved modularly but fires at run time: an engine/assumption problem - unless a callee's contract is
+                    # itself violated in this run (then the modular proof rests on a broken contract): decided below
+                    contradictions.append((r['task'], o, rp_))
                     continue
                 if v == 'violates':
                     violations.append({'task': r['task'], 'name': o['name'], 'kind': o['kind'], 'detail': rp_.get('detail'), 'witness': o.get('witness'),
@@ -313,6 +318,12 @@ def conclude(a, prop, recs, assumed, R, seed, t0):
                 errors.append((r['task'], f"z3 and cvc5 disagree on {o['name']}"))
             else:
                 undecided.append((r['task'], f"{o['name']}: {o['status']}"))
+    for task, o, rp_ in contradictions:
+        if violations:
+            violations.append({'task': task, 'name': o['name'], 'kind': o['kind'], 'detail': rp_.get('detail'), 'witness': o.get('witness'),
+                               'model': o.get('model'), 'replayed': True, 'path': o['path']})
+        else:
+            errors.append((task, f"clause {o['name']} is proved but fires on the real code: {rp_.get('detail')} (engine or assumption wrong)"))
     if n_obl == 0 and not bounded:
         errors.append(('-', 'zero obligations generated for this property'))
     # ---- output
@@ -397,6 +408,9 @@ def do_replay(a, prop):
     from pyvc.engine import Engine
     from pyvc import replay as rp
     d = json.load(open(a.replay))
+    if d.get('kind') == 'bounded' and d.get('input'):
+        from contracts import b_replay
+        return b_replay.replay(prop, d, a.repo)
     if not d.get('witness'):
         print(f"replay file names obligation {d.get('task')}::{d.get('obligation')}; no executable witness (no-failing-input-found)")
         print('solver output:', (d.get('solver_output') or d.get('detail') or '')[:2000])
